@@ -93,6 +93,18 @@ if __name__ == '__main__':
         excel_grid_case(rep)
         for cut, dr in (('0.3', '0.1'), ('1.2', '0.1'), ('0.7', '0.1'), ('10.0', '0.01'), ('6.5', '0.05')):
             c = dict(which='r', options={'cutoff': cut, 'dr': dr}, tabulate=True); rep.case('cutoff+dr', c); check_case(rep, c, 'cutoff=%s,dr=%s' % (cut, dr))
+        # the decimal lattice where rounding bites, on purpose rather than by chance: cutoff = k*dr (exact decimals) whose FLOAT quotient lands just
+        # below or just above the whole number k -- 30 of each kind per run, for both grids (chosen by float arithmetic alone, not by reading the code)
+        below, above = [], []
+        for step in ('0.01', '0.001', '0.02', '0.3', '0.005', '0.1', '0.7', '0.05'):
+            for k in range(2, 700):
+                cut = Decimal(step) * k; q = float(str(cut)) / float(step)
+                if q < k and len(below) < 30: below.append((str(cut), step, k))
+                elif q > k and len(above) < 30: above.append((str(cut), step, k))
+        for j, (cut, step, k) in enumerate(below + above):
+            which = 'r' if j % 2 == 0 else 'rho'
+            o = {'cutoff': cut, 'dr': step} if which == 'r' else {'cutoff_rho': cut, 'drho': step}
+            c = dict(which=which, options=o, tabulate=False); rep.case('lattice/' + ('below' if j < len(below) else 'above'), c); check_case(rep, c, 'lattice-%s/%s' % (cut, step))
         for i in range(pl.get('n', 300)):
             c = gen_case(rng); rep.case('+'.join(sorted(c['options'])) or 'none', c); check_case(rep, c, 'seeded-%d' % i)
     rep.finish()
